@@ -137,7 +137,7 @@ func pmtOpaqueCtors(in *Interp) {
 
 func runC06(c *Checker) {
 	c.Level = "other"
-	c.explain = "PMT parsing is interpreted on payload *shapes*: pointer_field, preceding sections, section_length, program_info_length, every ES_info_length and descriptor length are fixed, so the section walk and both loops unroll under constant propagation, while table contents, stream types, PIDs, descriptor tags/bodies and the version byte stay symbolic. For each shape the parser must create exactly the reference sequence of descriptors (tag = first byte, body = the announced window) and elementary streams (type byte, 13-bit PID, its descriptors in order), the PID list in order, version = s[5][5:1], current_next = s[5].0; the completion predicate is evaluated on every prefix of each shape; the PSI header accessors, the table-header codec, NewPointerField and ExtractCRC are checked by bit provenance; ReadPMT by SSA plumbing rules. Decides field layout, loop bounds and advances on these shapes. Does not decide: arbitrary section sizes beyond the shapes (same code for each entry), splits across packets (C17's concatenation contract)."
+	c.explain = "PMT parsing is interpreted on payload *shapes*: pointer_field, preceding sections, section_length, program_info_length, every ES_info_length and descriptor length are fixed, so the section walk and both loops unroll under constant propagation, while table contents, stream types, PIDs, descriptor tags/bodies and the version byte stay symbolic. For each shape the parser must create exactly the reference sequence of descriptors (tag = first byte, body = the announced window) and elementary streams (type byte, 13-bit PID, its descriptors in order), the PID list in order, version = s[5][5:1], current_next = s[5].0; the completion predicate is evaluated on every prefix of each shape; the PSI header accessors, the table-header codec, NewPointerField and ExtractCRC are checked by bit provenance; ReadPMT by one abstract iteration of its loop from a symbolic loop state (read replaced by a model that fills the packet with symbolic bytes and seeded PID bits; NewPMT and the accumulator uninterpreted) with a case analysis on the outcomes of the calls. Decides field layout, loop bounds and advances on these shapes. Does not decide: arbitrary section sizes beyond the shapes (same code for each entry), splits across packets (C17's concatenation contract)."
 	c.trust("go/ssa + go/types (x/tools v0.29.0)", "E1 transfer functions", "layouts transcribed from ISO/IEC 13818-1 Tables 2-29/2-33", "NewPmtDescriptor / NewPmtElementaryStream store their arguments (their own decoders are C20)")
 	c.checkPSIAccessors()
 	c.checkTableHeaderCodec()
@@ -747,7 +747,9 @@ func (c *Checker) checkReadPMTStep(fn *ssa.Function) {
 	pmtPhi := phiOf(r.ls, isNamed("psi.PMT"))
 	donePhi := phiOf(r.ls, isBool)
 	wr, by, np, pd := callsOf(r, ".WritePacket"), callsOf(r, "Accumulator).Bytes"), callsOf(r, "psi.NewPMT"), callsOf(r, "PMT).Pids")
-	if accPhi == nil || pmtPhi == nil || donePhi == nil || len(wr) != 1 || len(by) != 1 || len(np) != 1 || len(pd) != 1 {
+	// the table found and a completion flag are loop state only in some
+	// formulations (others return from inside the loop)
+	if accPhi == nil || (donePhi == nil) != (pmtPhi == nil) || len(wr) != 1 || len(by) != 1 || len(np) != 1 || len(pd) != 1 {
 		c.undecided(rule, anchor, "loop step", fmt.Sprintf("loop state or calls not recognised (accumulator %v, table %v, done %v; %d WritePacket, %d Bytes, %d NewPMT, %d Pids)", accPhi != nil, pmtPhi != nil, donePhi != nil, len(wr), len(by), len(np), len(pd)))
 		return
 	}
@@ -816,7 +818,11 @@ func (c *Checker) checkReadPMTStep(fn *ssa.Function) {
 	leaves := func(f2 *factSet) bool { b := f2.bit(r.ls.Cond); return isConst(b) && !b.c }
 	{
 		f2 := with(wNil, bnot(wDone))
-		c.check(rule, anchor, "accumulator not complete yet: the loop continues with the same accumulator", goesOn(f2) && same(f2, accPhi) && same(f2, pmtPhi) && same(f2, donePhi), "next accumulator "+showVal(f2.val(r.ls.Next[accPhi])))
+		unchanged := true
+		for _, p := range r.ls.Phis {
+			unchanged = unchanged && same(f2, p)
+		}
+		c.check(rule, anchor, "accumulator not complete yet: the loop continues with the same accumulator", goesOn(f2) && unchanged, "next accumulator "+showVal(f2.val(r.ls.Next[accPhi])))
 	}
 	{
 		f2 := with(bnot(wNil), wDone)
@@ -825,10 +831,22 @@ func (c *Checker) checkReadPMTStep(fn *ssa.Function) {
 		c.check(rule, anchor, "accumulator complete: the table is parsed from that accumulator's bytes", isConst(dc) && dc.c && okArg, fmt.Sprintf("NewPMT under %s with %s", dc, showVal(np[0].Args)))
 	}
 	{
-		f2 := with(bnot(wNil), wDone, npNil, bnot(empty))
-		nd, _ := f2.val(r.ls.Next[donePhi]).(*BV)
-		okDone := nd != nil && nd.W == 1 && isConst(nd.Bits[0]) && nd.Bits[0].c
-		c.check(rule, anchor, "a table with elementary streams ends the search and becomes the result", goesOn(f2) && okDone && sameVal(f2.val(r.ls.Next[pmtPhi]), npRes.Fields[0]), fmt.Sprintf("done=%s table=%s", showVal(f2.val(r.ls.Next[donePhi])), showVal(f2.val(r.ls.Next[pmtPhi]))))
+		// "has streams" in each of the equivalent ways of writing it (a length is not negative)
+		zero, one := constInt(0, nPids.W, true), constInt(1, nPids.W, true)
+		f2 := with(bnot(wNil), wDone, npNil, bnot(empty), bvLt(zero, nPids), bnot(bvLt(nPids, one)), bnot(bvLt(nPids, zero)))
+		good, d := false, ""
+		if donePhi == nil {
+			got0, got1 := f2.val(r.ls.Sum.RetN(0)), f2.val(r.ls.Sum.RetN(1))
+			_, nilErr := got1.(NilV)
+			good = leaves(f2) && sameVal(got0, npRes.Fields[0]) && nilErr
+			d = fmt.Sprintf("result (%s, %s)", showVal(got0), showVal(got1))
+		} else {
+			nd, _ := f2.val(r.ls.Next[donePhi]).(*BV)
+			okDone := nd != nil && nd.W == 1 && isConst(nd.Bits[0]) && nd.Bits[0].c
+			good = goesOn(f2) && okDone && sameVal(f2.val(r.ls.Next[pmtPhi]), npRes.Fields[0])
+			d = fmt.Sprintf("done=%s table=%s", showVal(f2.val(r.ls.Next[donePhi])), showVal(f2.val(r.ls.Next[pmtPhi])))
+		}
+		c.check(rule, anchor, "a table with elementary streams ends the search and becomes the result", good, d)
 	}
 	// invariant of the loop state: the accumulator carried into the next
 	// iteration is the current one or a new one with the PMT predicate
@@ -845,7 +863,7 @@ func (c *Checker) checkReadPMTStep(fn *ssa.Function) {
 		c.check(rule, anchor, "the accumulator carried into the next iteration is the current one or a new one that uses the PMT completion predicate", d == "", d)
 	}
 	// when the flag is set the loop is left with the table found
-	{
+	if donePhi != nil {
 		f2 := newFactSet(nil)
 		if dv, ok := r.ls.Pre[donePhi].(*BV); ok {
 			f2.assume(dv.Bits[0])
